@@ -121,9 +121,13 @@ func (it *NativeIterator) Merge(oldval []byte) (val []byte, err error) {
 	oldTS := h.Timestamp
 	newTS := header.Timestamp(entry.TimestampNano)
 	actualOldVal := appVal
+	// Before format version 2 a deletion was an empty value without a flag.
+	newDeleted := entry.MaskedFlags().IsDeleted() || (len(entryVal) == 0 && it.FormatVersion < 2)
 	if newTS == 0 {
-		// Special handling for main to shadow copy that uses a default timestamp
-		if bytes.Equal(actualOldVal, entryVal) {
+		// Special handling for main to shadow copy that uses a default timestamp.
+		// A deletion marker arriving for a live empty value is not "the same
+		// value": it must go through the tie-break below.
+		if bytes.Equal(actualOldVal, entryVal) && !(newDeleted && !h.Flags.IsDeleted()) {
 			return oldval, nil // do not update timestamp
 		}
 		newTS = it.DefaultTimestampNano
@@ -138,7 +142,6 @@ func (it *NativeIterator) Merge(oldval []byte) (val []byte, err error) {
 		// On a full tie between a live empty value and a deletion marker, the
 		// deletion marker wins on every instance, otherwise each side would keep
 		// what it has forever.
-		newDeleted := entry.MaskedFlags().IsDeleted() || (len(entryVal) == 0 && it.FormatVersion < 2)
 		if !(len(actualOldVal) == 0 && len(entryVal) == 0 && newDeleted && !h.Flags.IsDeleted()) {
 			return oldval, nil
 		}
